@@ -111,7 +111,33 @@ def main():
                         fail('addterm-alias', {'n': n, 'first': k1,
                                                'second': k2})
     inplace_scalar()
+    aliasing()
     print('EXPR-JSON ' + json.dumps(fails))
+
+
+def aliasing():
+    """a sum must not share coefficient matrices with its operands: in-place
+    operations on the sum leave the operands' values alone"""
+    x = variable(3, 'x')
+    y = variable(3, 'y')
+    x.value = matrix([1.0, -2.0, 3.0])
+    y.value = matrix([0.5, 1.5, -1.0])
+    A = matrix([float(i) for i in range(1, 10)], (3, 3))
+    B = matrix([float(-i) for i in range(1, 10)], (3, 3))
+    S = sparse(B)
+    for nm, Bc in (('dense', B), ('sparse', S), ('row', B[0, :])):
+        g = Bc * y
+        before = list(g.value())
+        f = A * x + g
+        f *= 3.0
+        f2 = A * x + g
+        f2 += y
+        after = list(g.value())
+        if any(abs(u - v) > 1e-12 for u, v in zip(before, after)):
+            fail('addterm-alias', {'operand coefficient': nm,
+                                   'value before': before,
+                                   'value after in-place ops on the sum':
+                                   after})
 
 
 def inplace_scalar():
